@@ -19,7 +19,8 @@ RULE = ('request/handler kinds {echo (reads path, query, header, cookie; sets co
         'all schedules with at most one preemption (quick) / at most two preemptions (thorough, for the listed pairs) at every statement of '
         'ombott/ and the handlers, plus seeded random multi-preemption schedules for 2 and 3 threads (each thread serving 1-2 requests). '
         'Non-trivial = at least one context switch happened while both threads were inside the framework; distinct = distinct (kinds, schedule).')
-REQUIRED = ['scheduled_runs', 'context_switches', 'responses_compared', 'one_preemption_runs', 'random_schedule_runs', 'three_thread_runs',
+PYOPT = {'quick': 1, 'thorough': 1}     # one unit of every kind is also served by an interpreter started with -O (assert statements compiled out)
+REQUIRED = ['units_run_under_python_-O', 'scheduled_runs', 'context_switches', 'responses_compared', 'one_preemption_runs', 'random_schedule_runs', 'three_thread_runs',
             'distinct_preemption_points', 'preempted_inside_handler', 'preempted_inside_framework']
 EXHAUSTIVE = {'quick': False, 'thorough': False,
               'quick_note': 'for the listed kind pairs every schedule with at most one preemption is enumerated',
@@ -27,7 +28,8 @@ EXHAUSTIVE = {'quick': False, 'thorough': False,
 ASSUMPTIONS = ['statements inside the standard library are not preemption points; interleavings inside one statement are not explored',
                'every thread is a fresh thread or a worker serving requests one after another; the application object is the module default app (redirect needs it)']
 
-KINDS = ['echo', 'post', 'raise_resp', 'abort', 'crash', 'nf', 'na', 'big', 'redirect', 'gen', 'multipart', 'json', 'chunked', 'noname_json']
+KINDS = ['echo', 'post', 'raise_resp', 'abort', 'crash', 'nf', 'na', 'big', 'redirect', 'gen', 'multipart', 'json', 'chunked', 'noname_json',
+         'chunked_form', 'echo10', 'redirect10']
 _APP = {}
 
 
@@ -61,7 +63,9 @@ def get_app():
         c2 = sorted(rq.url_args.items())
         c3 = rq.app is app
         c4 = rq.url
-        return '|'.join(map(str, (a1, a2, a3, a4, b1, b2, b3, b4, rs.status_code, rs.headers.get('X-Echo'), c1, c2, c3, c4)))
+        # a request without a body has no form fields, whoever else is posting forms at the moment
+        d1 = (rq.forms.get('b'), rq.params.get('b'), len(rq.POST), len(rq.files))
+        return '|'.join(map(str, (a1, a2, a3, a4, b1, b2, b3, b4, rs.status_code, rs.headers.get('X-Echo'), c1, c2, c3, c4, d1)))
 
     def post():
         a1 = rq.body.read()
@@ -177,6 +181,17 @@ def make_env(kind, m):
         raw = b''.join(b'%x%s\r\n%s\r\n' % (len(p), b';e=1' if i == 1 else b'', p.encode()) for i, p in enumerate(parts)) + b'0\r\n\r\n'
         return make_environ('POST', '/post', qs='m=' + m, stream=RecStream(raw, 'one'), content_length=None, chunked=True,
                             content_type='text/plain', headers={'X-M': m})
+    if kind == 'chunked_form':
+        # a urlencoded form under chunked transfer framing (no Content-Length at all)
+        body = ('b=' + m + '&pad=' + 'p' * 30).encode()
+        raw = b'%x\r\n%s\r\n%x\r\n%s\r\n0\r\n\r\n' % (7, body[:7], len(body) - 7, body[7:])
+        return make_environ('POST', '/post', qs='m=' + m, stream=RecStream(raw, ('list', [3, 9, 40])), content_length=None, chunked=True,
+                            content_type='application/x-www-form-urlencoded', headers={'X-M': m})
+    if kind == 'echo10':
+        # a client that sends no Host header: the URL is built from SERVER_NAME / SERVER_PORT, which differ per request (virtual hosts)
+        return make_environ('GET', '/echo/' + m, qs='m=' + m, headers={'X-M': m, 'Cookie': 'c=' + m, 'Host': m + '.example:8080'}, flavour='http10')
+    if kind == 'redirect10':
+        return make_environ('GET', '/redirect', qs='m=' + m, headers={'Host': m + '.example'}, flavour='http10')
     if kind == 'gen':
         return make_environ('GET', '/gen/' + m, qs='m=' + m, headers={'X-M': m})
     raise ValueError(kind)
@@ -201,6 +216,8 @@ class Lab:
         self.app = get_app()
         self.sched = Scheduler(files=[os.path.abspath(__file__)], dirs=[OMBOTT_DIR]).install()
         self.solo = {}
+        self.markers = {'warm'}
+        self.ctx = None
         self.points = set()
         # warm-up: lazily loaded templates and caches must not change the step counts between runs
         for k in KINDS:
@@ -216,14 +233,23 @@ class Lab:
             res, info = self.sched.run([job(self.app, [(kind, m)])], [])
             assert res[0][0] == 'ok', res
             status = res[0][1][0][0]
-            expect_ok = kind in ('echo', 'post', 'raise_resp', 'gen', 'multipart', 'json', 'chunked', 'redirect')
+            expect_ok = kind in ('echo', 'post', 'raise_resp', 'gen', 'multipart', 'json', 'chunked', 'redirect', 'chunked_form', 'echo10', 'redirect10')
             if expect_ok and not status.startswith(('2', '3')):
                 raise AssertionError(f'harness: kind {kind} is meant to succeed but answers {status} when served alone: {res[0][1][0][2][:200]!r}')
+            # the reference itself must be clean: a request served alone cannot carry what earlier requests of this process brought
+            got = res[0][1][0]
+            earlier = [x for x in self.markers if x != m and x not in m and (x.encode() in got[2] or any(x in v for _, v in got[1]))]
+            self.markers.add(m)
+            if earlier and self.ctx is not None:
+                self.ctx.violation(f'response-of-a-request-served-alone-carries-an-earlier-marker:{kind}',
+                                   f'{kind} with marker {m} served alone after requests with markers {sorted(self.markers)}: carries {earlier}: {got[:3]}',
+                                   {'unit': {'kind': 'note', 'request': [kind, m], 'earlier_markers': sorted(self.markers)}})
             self.solo[k] = (res[0][1][0], info['steps'][0])
         return self.solo[k]
 
     def run(self, ctx, thread_reqs, schedule, what, record=True):
         """thread_reqs: list (per thread) of lists of (kind, marker).  Compares every response with its solo baseline."""
+        self.ctx = ctx
         expect = [[self.baseline(k, m)[0] for k, m in reqs] for reqs in thread_reqs]
         wit = {'unit': {'kind': 'one', 'threads': [[list(r) for r in reqs] for reqs in thread_reqs], 'schedule': [list(s) for s in schedule]}}
         try:
@@ -258,11 +284,13 @@ class Lab:
 
 
 PAIRS_QUICK = [('echo', 'echo'), ('echo', 'post'), ('raise_resp', 'echo'), ('crash', 'abort'), ('big', 'big'), ('nf', 'redirect'), ('gen', 'echo'), ('na', 'post'),
-               ('multipart', 'json'), ('json', 'echo'), ('chunked', 'chunked'), ('chunked', 'post'), ('noname_json', 'noname_json'), ('multipart', 'multipart')]
+               ('multipart', 'json'), ('json', 'echo'), ('chunked', 'chunked'), ('chunked', 'post'), ('noname_json', 'noname_json'), ('multipart', 'multipart'),
+               ('chunked_form', 'chunked_form'), ('chunked_form', 'echo'), ('echo10', 'echo10'), ('redirect10', 'echo10')]
 
 
 def one_preemption(ctx, lab, a, b, stride=1):
     ma, mb = 'AAA1', 'BBB2'
+    lab.ctx = ctx
     na = lab.baseline(a, ma)[1]
     nb = lab.baseline(b, mb)[1]
     for k in range(0, na + 1, stride):
@@ -280,6 +308,7 @@ def one_preemption(ctx, lab, a, b, stride=1):
 
 def two_preemptions(ctx, lab, a, b, stride, part, parts):
     ma, mb = 'AAA1', 'BBB2'
+    lab.ctx = ctx
     na = lab.baseline(a, ma)[1]
     nb = lab.baseline(b, mb)[1]
     i = 0
@@ -326,6 +355,7 @@ def random_unit(ctx, unit):
             for t in range(nt):
                 reqs = [(rng.choice(KINDS), 'M%dx%d' % (t, j) + 'QZ'[t % 2] * 3) for j in range(rng.choice([1, 1, 2]))]
                 thread_reqs.append(reqs)
+            lab.ctx = ctx
             total = sum(lab.baseline(k, m)[1] for reqs in thread_reqs for k, m in reqs)
             segs = []
             nseg = rng.randint(2, 14)
